@@ -285,6 +285,7 @@ func runC01(c *core.Ctx, o Options) {
 	checkChecksumFn(c, "S1", ccs)
 	checkLeafProducers(c, "S2")
 	checkIntCodec(c, "S4")
+	c.RuleMin = map[string]int{"L1": 6, "L2": 8, "L3": 2, "L4": 3, "S1": 2, "S2": 8, "S4": 2}
 	c.MinObl = 30
 }
 
